@@ -88,6 +88,17 @@ func d1Spaces(r *Run, oracles []string, bias string) (closure []Spec, traj []Spe
 		for _, sc := range []string{"map-drain-front", "map-drain-back", "map-shrink-overwrite"} {
 			traj = append(traj, TrajSpecs(r.ID, sc, 2*mmax-20, mmax-9, 2*mmax-19, step, 1, T, mcl, tor)...)
 		}
+		// collision groups (inline, then external once their members are big) spread over every leaf of a growing
+		// map, up to three levels; from every seed EVERY present key is removed / shrunk (a collapsing group makes its
+		// leaf GROW, which can split it and push its parent — possibly a full root — over the limit)
+		// (thorough tier only: the depth-2 neighbourhoods of these 130-entry seeds cost minutes)
+		if r.Thorough() && T == 256 {
+			cg := TrajSpecs(r.ID, "map-coll-grow", 132, 106, 131, 1, 2, T, mcl, tor)
+			for i := range cg {
+				cg[i].Extra["allkeys"] = 1
+			}
+			traj = append(traj, cg...)
+		}
 		// nested children (inlined, standalone, wrapped, composite/compact of two types) spread over every
 		// slab of multi-level parents: every seed state and its depth-1 neighbourhood
 		kstep := 2 * step
@@ -253,6 +264,17 @@ func init() {
 		r.ExploreSpecs(tr)
 		r.ExploreSpecs(collSpecs(r, or, []string{"t", "s60", "limM+"}))
 		r.ExploreSpecs(nestedFor(r, or))
+		// collision groups whose members hold slabs of their own (externalised values), with commits and reopenings
+		// inside the history: a removed member's slab is disposed of, the group's committed form must not keep it
+		var cev []Spec
+		for ai, a := range DigestAssignments(3) {
+			if ai%3 != 0 && !r.Thorough() {
+				continue
+			}
+			cev = append(cev, Spec{Name: fmt.Sprintf("reach-coll-events-a%d", ai), Kind: "coll", T: 256, Keys: 3, Classes: []string{"t", "limM+"},
+				Oracles: []string{"sem", "reach", "health", "ev:commit1", "ev:creopen"}, Digests: a, Limit: 255, Depth: 5, Extra: map[string]int{"limit": 1}})
+		}
+		r.ExploreSpecs(cev)
 		r.ExploreSpecs([]Spec{
 			// values far larger than any slab (> 64 KiB), under inline and externalised keys
 			{Name: "reach-giant-map", Kind: "map-small", T: 256, Keys: 1, Extra: map[string]int{"kLim": 1}, Classes: []string{"t", "giant"}, Oracles: or},
